@@ -28,8 +28,9 @@ TSpec == TInit /\ [][TNext]_tvars
 Accepted ==
   ln > 0 =>
     LET o   == Obs[ln]
-        bad == {k \in DOMAIN o.rows : ~Allowed(o.G, o.rows[k].ar, ToR(o.rows[k].r))}
+        I   == Info(o.G)
+        bad == {k \in DOMAIN o.rows : ~Allowed(I, o.rows[k].ar, ToR(o.rows[k].r))}
     IN /\ PrintT("ACC " \o ToString(ln) \o " " \o ToString(Len(o.rows) - Cardinality(bad)))
        /\ \A k \in bad : PrintT("REJ " \o ToString(ln) \o " " \o ToString(k) \o " "
-                                \o Why(o.G, o.rows[k].ar, ToR(o.rows[k].r)))
+                                \o Why(I, o.rows[k].ar, ToR(o.rows[k].r)))
 =============================================================================
